@@ -116,7 +116,6 @@ func newE2E(carrier string, relay func(target string) string) (*e2e, error) {
 		s := server.NewSocketServer()
 		path := fmt.Sprintf("/tmp/verif-e2e-%d-%d.sock", os.Getpid(), time.Now().UnixNano())
 		s.Address = addr.MustParseAddress("unix://" + path)
-		s.Address.Host = path // the socket servers resolve Host
 		if err := s.Startup(chans); err != nil {
 			return nil, err
 		}
@@ -181,7 +180,6 @@ func newE2E(carrier string, relay func(target string) string) (*e2e, error) {
 		}
 		if strings.HasPrefix(url, "unix://") {
 			u := &upstream.Socket{Address: addr.MustParseAddress(url)}
-			u.Address.Host = strings.TrimPrefix(url, "unix://")
 			w.ups = &upstream.Upstreams{Data: []upstream.Upstream{u}}
 		} else {
 			w.ups = &upstream.Upstreams{Data: []upstream.Upstream{mkUpstream(url)}}
